@@ -46,6 +46,9 @@ func (t *tracer) lookupKey(lk *ssa.Lookup, ctx []callCtx, depth int) {
 	}
 	sub := &tracer{e: t.e, seen: map[string]bool{}, out: t.keys}
 	sub.trace(lk.Index, ctx, depth+1, "")
+	if p := fieldPathOf(lk.Index, ctx); p != "" {
+		t.keys["path:"+p] = true
+	}
 }
 
 // edgeFacts: conditions that hold when control flows from pred to succ.
